@@ -219,6 +219,39 @@ def c09_bc(ctx, table):
     ctx.check_eq('bc_of_the_current_shot_on_a_reused_solver', calc.drag_by_mach(M) * bc2, cd * F(2.08551e-04), rel=1e-12, abs=1e-15, info={'how': 'BC changed in place'})
 
 
+@harness('C09.shared_points', 'C09', functions=FUNCS + ['py_ballisticcalc.drag_model.make_data_points', 'py_ballisticcalc.drag_model.DragModelMultiBC.__init__'],
+         must_reach=['check:drag_is_the_tables_whatever_else_was_built_from_it'], engine_opts={'div_check': False},
+         bounds='one table kept by the caller as a list of DragDataPoint objects (3 symbolic points) and used for a plain model, then for a multi-BC model '
+                '(2 symbolic BC points), then for a plain model again: the caller\'s list and points are unchanged and BOTH plain models give the solver '
+                'the tabulated CD / BC at every node')
+def c09_shared_points(ctx):
+    p, tc = pybc(), _tc()
+    import py_ballisticcalc.drag_model as dmod
+    from py_ballisticcalc.interface_config import create_interface_config
+    ms, cds = [], []
+    for i in range(3):
+        m = ctx.real(f'mach{i}', 0, 10)
+        if i:
+            ctx.assume(m > ms[-1])
+        ms.append(m)
+        cds.append(ctx.real(f'cd{i}', 1e-3, 10))
+    pts = [dmod.DragDataPoint(ms[i], cds[i]) for i in range(3)]
+    held = list(pts)
+    bc = ctx.real('bc', 1e-3, 10)
+    plain1 = p.DragModel(bc, pts)
+    b1, b2 = ctx.real('bc_point1', 1e-3, 10), ctx.real('bc_point2', 1e-3, 10)
+    dmod.DragModelMultiBC([dmod.BCPoint(b1, Mach=ms[0]), dmod.BCPoint(b2, Mach=ms[2])], pts)
+    plain2 = p.DragModel(bc, pts)
+    ctx.check('callers_table_unchanged', len(pts) == 3 and all(pts[i] is held[i] for i in range(3))
+              and all(ctx.same_term(held[i].CD, cds[i]) and ctx.same_term(held[i].Mach, ms[i]) for i in range(3)))
+    for tag, model in (('built before', plain1), ('built after', plain2)):
+        calc = tc.TrajectoryCalc(create_interface_config(None))
+        calc._init_trajectory(p.Shot(p.Weapon(), p.Ammo(model, p.Velocity.FPS(2700)), atmo=_atmo(p)))
+        for i in range(3):
+            ctx.check_eq('drag_is_the_tables_whatever_else_was_built_from_it', calc.drag_by_mach(ms[i]) * bc, cds[i] * F(2.08551e-04), rel=1e-9, abs=1e-15,
+                         info={'model': tag, 'node': i})
+
+
 @harness('C09.sequence', 'C09', functions=FUNCS, must_reach=['check:each_lookup_is_a_function_of_its_mach_only', 'rising', 'falling'],
          bounds='one solver object, a 6-node custom table, THREE successive drag_by_mach look-ups at symbolic Mach numbers M1, M2, M1 in [0,5] in any order '
                 '(rising and falling; every pair of table intervals): each equals the stateless table look-up at its own Mach number')
